@@ -1,5 +1,5 @@
 """C15 — schema equality is structural; schema == value means the value validates."""
-from .. import encode, gen_value, model, rebuild, runner, valcases
+from .. import conforms, encode, gen_value, model, rebuild, runner, valcases
 from ..common import d42  # noqa: F401
 from niltype import Nil
 import datetime as _dt
@@ -113,6 +113,12 @@ def eq(a, b):
 def run(ctx):
     runner.prove(ctx, MODULE, THEOREMS, FILES)
     pairs = valcases.schema_batch(ctx, ctx.n(120, 900), customs=False)
+    # wide unions / wide dicts / long element lists (with a witness only the LAST alternative / key / element decides)
+    for n in (8, 9, 10, 12, 25):
+        pairs += [(schema.any(*[schema.int(i) for i in range(n)]), n - 1), (schema.any(*[schema.str("v%d" % i) for i in range(n)]), "v%d" % (n - 1)),
+                  (schema.dict({"code": schema.any(*[schema.int(i) for i in range(n)])}), {"code": n - 1}),
+                  (schema.list([schema.int(i) for i in range(n)]), list(range(n))),
+                  (schema.dict({"k%02d" % i: schema.int(i) for i in range(n)}), {"k%02d" % i: i for i in range(n)})]
     pool = [s for s, w in pairs]
     from d42 import substitute
     for s0, w0 in pairs[: ctx.n(60, 400)]:
@@ -176,6 +182,15 @@ def run(ctx):
             got = eq(s, x)
             if got is not want:
                 ctx.violation("schema == value disagrees with validation", value=repr(x), eq=repr(got), validates=want, **info_d)
+            # ... and "validates" in the sense of the schema's declared meaning (the independent Conforms oracle), not only of
+            # whatever validate() answers
+            try:
+                means = conforms.conforms(s, x)
+            except Exception:  # noqa: BLE001
+                means = None
+            if isinstance(got, bool) and means is not None and got is not means and not gen_value.has_nan(x):
+                ctx.violation("schema == value disagrees with the declared meaning of the schema", value=repr(x), eq=repr(got),
+                              conforms=means, **info_d)
             # != is the negation of ==, whichever side the schema is on
             try:
                 ne1, ne2, eq2 = (s != x), (x != s), (x == s)
